@@ -9,7 +9,7 @@ from ..common import enc_str
 
 ID = 'C17'
 LEAN_MODULES = ['HotXL.Props.C17']
-_MT = ['ROUND', 'ROUNDUP', 'ROUNDDOWN', 'CEILING', 'FLOOR', 'INT', 'EVEN', 'ODD', 'QUOTIENT', 'MOD', 'SIGN', 'FACT',
+_MT = ['_place_beyond', 'ROUND', 'ROUNDUP', 'ROUNDDOWN', 'CEILING', 'FLOOR', 'INT', 'EVEN', 'ODD', 'QUOTIENT', 'MOD', 'SIGN', 'FACT',
        'FACTDOUBLE', 'BASE', 'DECIMAL', 'ROMAN', 'ARABIC']
 _EN = ['HEX2DEC', 'DEC2HEX', 'COMPLEX', 'IMREAL', 'IMAGINARY', 'DELTA']
 FUNCTIONS = ['hotxlfp.formulas.mathtrig:%s' % n for n in _MT] + ['hotxlfp.formulas.engineering:%s' % n for n in _EN] + \
@@ -18,7 +18,14 @@ FUNCTIONS = ['hotxlfp.formulas.mathtrig:%s' % n for n in _MT] + ['hotxlfp.formul
 RULE = ('ROUND/ROUNDUP/ROUNDDOWN on ints (small, large, multiples of powers of ten), dyadic fractions (k/2^j, incl. exact ties) and '
         'decimal fractions of either sign x digits -6..6; CEILING/FLOOR (and the .MATH/.PRECISE aliases, one- and two-argument) on '
         'the same numbers x significances of either sign (ints, dyadic, decimal, 0); INT/EVEN/ODD/SIGN on the same numbers and 0; '
-        'QUOTIENT/MOD on all sign combinations incl. divisor 0; FACT/FACTDOUBLE on 0..170, fractions and negatives; '
+        'QUOTIENT/MOD on all sign combinations incl. divisor 0; FACT on 0..175 and FACTDOUBLE on 0..170 and 290..306 (both range '
+        'ends: 170!/171, 300!!/301), fractions next to the ends (170.5, 170.9, 300.9, ...), negatives and huge arguments (10^6 .. '
+        '10^30, 1e300, 2^1024) which must be errors at once; ROUND/ROUNDUP/ROUNDDOWN with digits at and beyond the shortcuts of the '
+        'code for far-away places (307..310, 323/324, 400, 1000, 1073..1076, 5000 .. 10^30 and their negatives, -1023..-1026, '
+        '-1030..-1033) on 0, ints of either sign up to 2^53, TRUE, dyadic fractions, the smallest normal and the smallest denormal '
+        'double, and ints beyond the doubles (10^310, 2^1024, 2^1030-1, 2^1030, 10^400: bit lengths around and above 1024) with '
+        'digits on both sides of -bit length - within the region where the float intermediates of the code neither overflow nor '
+        'underflow (see TRUSTED) - each call under a line-event AND a wall-clock budget; '
         'HEX2DEC(DEC2HEX(n)) on the boundary sets +-2^39+-3, +-2^40+-3, 0, +-1 and seeded n of the 40-bit range (quick 10^5, '
         'thorough 10^6) and outside it; DECIMAL(BASE(n,r),r) for every r in 2..36 x seeded 0<=n<2^39 (plus 0, 1, r-1, r, r^k, 2^39-1), '
         'BASE with r outside 2..36 / negative n / float arguments / places, each BASE/DECIMAL/ROMAN/ARABIC/FACT call under a '
@@ -28,10 +35,23 @@ RULE = ('ROUND/ROUNDUP/ROUNDDOWN on ints (small, large, multiples of powers of t
         '(plain digit strings, plus a few with sign/blanks/underscore/0x prefix).  Non-trivial = a call whose arguments lie in the '
         'quantified domain and whose result is a value (or a documented error for an out-of-range argument).')
 TRUSTED = ['Python float arithmetic is modelled by exact rational arithmetic (results compared within 4 ulp; a scaled value within '
-           '2^-48 of an integer may fall on either side)',
+           '2^-48 of an integer may fall on either side); float OVERFLOW is not modelled: ROUNDUP/ROUNDDOWN of a float whose scaled '
+           'magnitude |x|*10^digits exceeds the double range raise in the code (#ERROR!), and so does EVERY float with an int digits '
+           'in 309..1074 or -1024..-309 (10**|digits| does not convert to a float); ROUNDUP of an int i with i / 10^-digits below 2^-1074 '
+           'underflows to 0.0 and returns 0; ints beyond 2^53 lose digits in abs(i) / 10**k and in the float result for digits >= 0 - '
+           'such inputs are not generated (reported as candidate findings)',
+           'ROUND(float, digits > 2000) is judged by the oracle only (the executable model would compute 10^digits)',
            'Python builtins round(), math.ceil/floor, int(text, base), hex(), str.rjust, complex() as described in the model files',
-           'sys.settrace line-event counting as the termination observer (budget %d line events per call)' % 100000]
+           'sys.settrace line-event counting as the termination observer (budget %d line events per call), plus a wall-clock alarm '
+           '(%d s, SIGALRM raised into the call) for the calls whose work sits in C (big-integer powers and factorials)' % (100000, 5)]
 ASSUMPTIONS = ['a float argument is judged by the exact value of the double; a result may differ from the exact multiple by 2 ulp',
+               'the documented range of FACT / FACTDOUBLE ends where the result stops being an XL number (a finite double): from the '
+               'first n on with n! (n!!, and every later one) beyond the largest double - 171 and 301, computed by the oracle itself - '
+               'an error is demanded ("arguments outside the documented range give an error rather than a value"); below it the exact integer',
+               'ROUND/ROUNDUP/ROUNDDOWN: where every multiple of 10^-digits the statement admits is beyond the largest double (ROUNDUP of a '
+               'non-zero number with digits < -308) an error is accepted as well as the exact integer; for |digits| > 1100 the oracle does not '
+               'form 10^digits: digits > 1100 demands the number itself (every double is a multiple of 2^-1074, hence of 10^-digits), '
+               'digits < -1100 demands 0 (ROUNDUP of a non-zero number: an error) for numbers below 10^1000 in magnitude',
                'for inputs whose scaled value is not exactly representable (decimal fractions) the bounds are relaxed by 2 ulp of the input',
                'CEILING(positive number, negative significance) may be the upward multiple (as the code does) or #NUM! (as Excel does)',
                'CEILING/FLOOR with significance 0 are not judged (the statement quantifies over significances of either sign)',
@@ -42,6 +62,8 @@ ASSUMPTIONS = ['a float argument is judged by the exact value of the double; a r
 EXHAUSTIVE = {'quick': False, 'thorough': False}
 
 BUDGET = 100000
+WALL = 5          # seconds of wall-clock per budgeted call (C-level work does not produce line events)
+DBL_MAX = Fraction(sys.float_info.max)
 ERRS = ['#ERROR!', '#DIV/0!', '#NAME?', '#N/A', '#NULL!', '#NUM!', '#REF!', '#VALUE!']
 H = 1 << 39
 W = 1 << 40
@@ -74,7 +96,17 @@ def budgeted(f):
             if count[0] > BUDGET:
                 raise StepBudgetExceeded()
         return tr
+    def on_alarm(signum, frame):
+        raise StepBudgetExceeded()
     old = sys.gettrace()
+    armed = False
+    try:
+        import signal
+        old_handler = signal.signal(signal.SIGALRM, on_alarm)
+        signal.setitimer(signal.ITIMER_REAL, WALL)
+        armed = True
+    except (ValueError, AttributeError, ImportError):
+        pass          # not the main thread / no SIGALRM: line events only
     sys.settrace(tr)
     try:
         return ('ok', f())
@@ -82,6 +114,9 @@ def budgeted(f):
         return ('hang', count[0])
     finally:
         sys.settrace(old)
+        if armed:
+            signal.setitimer(signal.ITIMER_REAL, 0)
+            signal.signal(signal.SIGALRM, old_handler)
 
 
 def dec_arg(a):
@@ -106,7 +141,7 @@ def call(name, args, traced=False):
 
 class _Hang(object):
     def __repr__(self):
-        return '<no result within %d line events>' % BUDGET
+        return '<no result within %d line events / %d s>' % (BUDGET, WALL)
 
 
 HANG = _Hang()
@@ -182,7 +217,7 @@ def impl(c):
         return [z, call('IMREAL', [z]), call('IMAGINARY', [z])]
     if k == 'formula':
         return parser().parse(c['f'])
-    return call(c['fn'], c['args'], traced=c['fn'] in TRACED)
+    return call(c['fn'], c['args'], traced=c['fn'] in TRACED or bool(c.get('guarded')))
 
 
 # --------------------------------------------------------------------------- model correspondence
@@ -307,7 +342,10 @@ def exact_input(*xs):
 
 
 def ulpf(v):
-    return Fraction(math.ulp(float(v))) if v != 0 else Fraction(0)
+    try:
+        return Fraction(math.ulp(float(v))) if v != 0 else Fraction(0)
+    except OverflowError:
+        return Fraction(0)          # a Python int beyond the doubles is exact
 
 
 def snap(r, unit):
@@ -323,12 +361,55 @@ def sgn(q):
     return (q > 0) - (q < 0)
 
 
+def o_round_far(c, r):
+    """|digits| > 1100, without forming 10^digits"""
+    fn, (x, d) = c['fn'], c['args']
+    X = Fraction(x)
+    if abs(X) >= 10 ** 1000:
+        return None
+    if d > 0:
+        # every double (a multiple of 2^-1074) and every int is a multiple of 10^-digits: the number itself is demanded
+        if not is_num(r):
+            return '%s(%r,%r) = %r is not a number' % (fn, x, d, r)
+        e = 0 if exact_input(x) else 2 * ulpf(x)
+        if abs(Fraction(r) - X) > e:
+            return '%s(%r,%r) = %r, expected the number itself (no digit that far to the right)' % (fn, x, d, r)
+        return None
+    # one unit is at least 10^1101, more than twice the number: the multiples are 0, +-unit, ...
+    if fn == 'ROUNDUP' and X != 0:
+        if is_err(r):
+            return None
+        if is_num(r) and isinstance(r, int) and -d <= 10000 and r == sgn(X) * 10 ** (-d):
+            return None
+        return 'ROUNDUP(%r,%r) = %r, expected an error (one unit of that place, 10^%d, is beyond the XL numbers)' % (x, d, r, -d)
+    if not is_num(r) or r != 0:
+        return '%s(%r,%r) = %r, expected 0 (the multiple of 10^%d within reach)' % (fn, x, d, r, -d)
+    return None
+
+
+def admitted(fn, X, U):
+    """the multiples of U the statement admits for X (magnitudes)"""
+    q = abs(X) / U
+    if fn == 'ROUNDUP':
+        return [math.ceil(q) * U]
+    if fn == 'ROUNDDOWN':
+        return [math.floor(q) * U]
+    lo, hi = math.floor(q) * U, math.ceil(q) * U
+    return [m for m in (lo, hi) if abs(m - abs(X)) <= U / 2]
+
+
 def o_round(c, r):
     fn, (x, d) = c['fn'], c['args']
-    if not is_num(r):
-        return '%s(%r,%r) = %r is not a number' % (fn, x, d, r)
+    if isinstance(d, bool) or not isinstance(d, int):
+        return None          # a non-integral `digits` is not in the statement: correspondence only
+    if abs(d) > 1100:
+        return o_round_far(c, r)
     X = Fraction(x)
     U = Fraction(10) ** (-d)
+    if is_err(r) and all(m > DBL_MAX for m in admitted(fn, X, U)):
+        return None          # every admitted multiple is beyond the XL numbers: an error rather than a value
+    if not is_num(r):
+        return '%s(%r,%r) = %r is not a number' % (fn, x, d, r)
     R = snap(r, U)
     if R is None:
         return '%s(%r,%r) = %r is not a multiple of 10^%d' % (fn, x, d, r, -d)
@@ -432,10 +513,34 @@ def o_div(c, r):
     return None
 
 
+def _dfact(n):
+    want = 1
+    while n > 1:
+        want *= n
+        n -= 2
+    return want
+
+
+def _range_end(f):
+    """the first n from which on f(n) is beyond the largest double (f(n) and f(n+1): both parities of n!!)"""
+    n = 0
+    while f(n) <= DBL_MAX or f(n + 1) <= DBL_MAX:
+        n += 1
+    return n
+
+
+FACT_END = {'FACT': _range_end(math.factorial), 'FACTDOUBLE': _range_end(_dfact)}
+
+
 def o_fact(c, r):
     fn, (x,) = c['fn'], c['args']
     if x < 0:
         return None if is_err(r) else '%s(%r) = %r, a negative argument must give an error' % (fn, x, r)
+    if x >= FACT_END[fn]:
+        if is_err(r):
+            return None
+        return '%s(%r) = %s, beyond the documented range (the result is no XL number from %d on) an error is expected' % (
+            fn, x, repr(r)[:60], FACT_END[fn])
     n = int(x)
     if fn == 'FACT':
         want = math.factorial(n)
@@ -653,12 +758,83 @@ def cases(rng, ctx):
             d = gen_number(rng) if rng.random() < 0.97 else 0
             add('div', fn, gen_number(rng), d)
 
-    # ---- FACT FACTDOUBLE
+    # ---- FACT FACTDOUBLE: the whole documented range, both range ends, huge arguments (an error at once)
     for fn in ('FACT', 'FACTDOUBLE'):
-        for k in range(0, 171):
+        for k in list(range(0, 176)) + (list(range(290, 307)) if fn == 'FACTDOUBLE' else []):
             add('fact', fn, k)
-        for x in (-1, -0.5, -170, 0.5, 5.9, 3.0, 10.999, 1e-9):
+        for x in (-1, -0.5, -170, 0.5, 5.9, 3.0, 10.999, 1e-9, 169.5, 170.0, 170.5, 170.9, 170.99999999999997, 171.0, 171.5, 172.25,
+                  299.5, 300.0, 300.5, 300.9, 300.99999999999994, 301.0, 301.5, 302.0, 1000, 10 ** 6, 10 ** 15, 10 ** 30, 1e15, 1e300,
+                  1.5e308, 2 ** 1024, -10 ** 15, -1e300):
             add('fact', fn, x)
+        for _ in range((400 if thorough else 40) * sc):
+            add('fact', fn, rng.choice([rng.randrange(0, 400), rng.randrange(160, 180), rng.randrange(295, 305),
+                                        rng.randrange(0, 3200) / 8.0, 10 ** rng.randrange(3, 40), float(10 ** rng.randrange(3, 300))]))
+    for f, want in [('FACT(170.9)', math.factorial(170)), ('FACT(171)', {'e': '#NUM!'}), ('FACT(1000000000000000)', {'e': '#NUM!'}),
+                    ('FACTDOUBLE(300)', FACT300), ('FACTDOUBLE(301)', {'e': '#NUM!'}), ('ROUND(7,-309)', 0), ('ROUNDDOWN(7,-309)', 0),
+                    ('ROUNDUP(7,-1025)', {'e': '#NUM!'}), ('ROUNDUP(0,-1025)', 0), ('ROUNDUP(3,1075)', 3), ('ROUNDDOWN(2.5,1075)', 2.5),
+                    ('ROUNDUP(7,-309)', 10 ** 309), ('ROUND(1' + '0' * 310 + ',-309)', 10 ** 310), ('ROUNDDOWN(1' + '0' * 310 + ',-309)', 10 ** 310),
+                    ('ROUND(1' + '0' * 310 + ',-1031)', 0), ('ROUNDUP(1' + '0' * 310 + ',-1031)', {'e': '#NUM!'}),
+                    ('ROUND(0,-1000000000000000)', 0), ('ROUNDUP(1,-1000000000000000)', {'e': '#NUM!'}),
+                    ('ROUNDDOWN(1,1000000000000000)', 1)]:
+        out.append({'kind': 'formula', 'f': f, 'want': want})
+
+    # ---- ROUND / ROUNDUP / ROUNDDOWN at and beyond the shortcuts for far-away places (each call budgeted):
+    #      digits > 1074 -> the number; -digits > max(1024, bit length of an int) -> 0 (ROUNDUP of a non-zero number: #NUM!)
+    tiny = 2.0 ** -1022
+    denorm = 5e-324
+    far = [307, 308, 309, 310, 323, 324, 400, 1000, 1023, 1024, 1025, 1026, 1073, 1074, 1075, 1076, 1100, 1101, 5000, 10 ** 6,
+           10 ** 15, 10 ** 30]
+    nums = [0, 0.0, 1, -1, 3, -7, 12345, -300000, 10 ** 15, -(2 ** 53), 2.5, -2.5, 0.125, -0.375, 1234.5, -1234.0625, True]
+    big = [10 ** 310, -10 ** 310, 2 ** 1024, 2 ** 1024 - 1, -(2 ** 1024), 2 ** 1030 - 1, 2 ** 1030, -(2 ** 1030), 10 ** 400,
+           7 * 10 ** 330, 2 ** 2000]
+
+    def ok_dir(fn, x, d):
+        """is ROUNDUP / ROUNDDOWN(x, d) free of float overflow / underflow / digit loss in the code (see TRUSTED)?"""
+        if d > 1074:
+            return True
+        size = abs(x).bit_length() if isinstance(x, int) else 0
+        if -d > max(1024, size):
+            return True
+        if x == 0:
+            return isinstance(x, int) or -308 <= d <= 308
+        if isinstance(x, float):
+            if not -308 <= d <= 308:
+                return False      # 10**|digits| does not convert to a float: OverflowError
+            if d > 22:
+                # 10**d is not a double: the scaled value carries a rounding error of the size of the unit
+                return abs(x) < 1e-290 and abs(x) * 10.0 ** d < 1e307
+            if d >= 0:
+                return Fraction(abs(x)) * 10 ** d == Fraction(abs(x) * float(10 ** d))
+            return fn == 'ROUNDDOWN' or Fraction(abs(x)) / 10 ** (-d) >= Fraction(1, 2 ** 1000)    # abs(x) / 10**k must not underflow (ROUNDUP)
+        if d >= 0:
+            return abs(x) <= 2 ** 53
+        q = Fraction(abs(x), 10 ** (-d))
+        if q < Fraction(1, 2 ** 1000):
+            return fn == 'ROUNDDOWN'      # abs(x) / 10**k underflows: harmless below (floor), 0 instead of one unit for ROUNDUP
+        if q >= 2 ** 52:
+            return False          # a float cannot hold the quotient's digits
+        frac = abs(q - round(q))
+        return frac == 0 or frac > Fraction(1, 1000)
+
+    for fn in ('ROUND', 'ROUNDUP', 'ROUNDDOWN'):
+        for d in far + [-v for v in far] + [-1030, -1031, -1032, -1033, -1329, -1330, -1331, -2001, -2002]:
+            for x in nums + big + [tiny, -tiny, denorm]:
+                if fn != 'ROUND' and not ok_dir(fn, x, d):
+                    continue
+                add('round', fn, x, d, guarded=True, nomodel=(fn == 'ROUND' and isinstance(x, float) and d > 2000))
+        for _ in range((600 if thorough else 60) * sc):
+            x = gen_number(rng) if rng.random() < 0.6 else rng.choice([1, -1]) * rng.randrange(0, 10 ** rng.randrange(1, 40))
+            if rng.random() < 0.15:
+                x = rng.choice([1, -1]) * rng.randrange(2 ** 1000, 2 ** rng.randrange(1001, 1100))
+            d = rng.choice([1, -1]) * rng.choice([rng.randrange(300, 330), rng.randrange(1015, 1110), rng.randrange(330, 5000),
+                                                  10 ** rng.randrange(4, 40)])
+            if fn != 'ROUND' and not ok_dir(fn, x, d):
+                d = rng.choice([1076 + rng.randrange(0, 5000), -(max(1024, abs(x).bit_length() if isinstance(x, int) else 0) + 1 + rng.randrange(0, 50))])
+            add('round', fn, x, d, guarded=True, nomodel=(fn == 'ROUND' and isinstance(x, float) and d > 2000))
+        # float `digits` beyond the shortcuts (correspondence only: they compare before the type of `digits` matters)
+        for x in (0, 3, -2.5, 0.0):
+            for d in (1074.5, 1075.0, -1024.5, -1025.0, 1e300, -1e300, 5000.25, -5000.25):
+                add('misc', fn, x, d)
 
     # ---- HEX2DEC(DEC2HEX(n))
     bnd = set()
@@ -793,6 +969,9 @@ def cases(rng, ctx):
     for a, b, pl in [(255, 16, '4'), (255, 16, 'x'), (255, 16, None), (255, 16, True), (255, 1, -1), (0, 2, 8), (0, 2, -1), (255, 16, 1), (255, 16, 2.5)]:
         add('misc', 'BASE', a, b, pl)
     return out
+
+
+FACT300 = _dfact(300)
 
 
 def classic_roman(n):
